@@ -1,9 +1,10 @@
 // ioexec: runs iohelp functions of /repo's working tree on the op lines the extracted Coq model (ocaml/io_driver.ml) also runs.
 // Protocol (tab separated), one result line per op:
-//   SR idx hex            slice read of function #idx (order of coq/gen/iohelp_names.txt, names given on argv)
-//   SW idx hex rv         slice write into a copy of the buffer
-//   TR hex idx,idx,..     stream reads on one ErrorReader over a reader that delivers the bytes and then fails
-//   TW failidx idx=rv,..  stream writes on one ErrorWriter whose underlying writer fails at call #failidx
+//
+//	SR idx hex            slice read of function #idx (order of coq/gen/iohelp_names.txt, names given on argv)
+//	SW idx hex rv         slice write into a copy of the buffer
+//	TR hex idx,idx,..     stream reads on one ErrorReader over a reader that delivers the bytes and then fails
+//	TW failidx idx=rv,..  stream writes on one ErrorWriter whose underlying writer fails at call #failidx
 package main
 
 import (
@@ -13,6 +14,7 @@ import (
 	"fmt"
 	"io"
 	"math"
+	"math/big"
 	"os"
 	"strconv"
 	"strings"
@@ -54,11 +56,13 @@ func ds(t time.Time) string {
 	if t.IsZero() {
 		return "d:zero"
 	}
-	n := t.UnixNano()
-	if n < 0 {
-		return "d:-" + strconv.FormatUint(uint64(-n), 16)
+	// seconds and nanoseconds combined without wrapping: UnixNano() is taken modulo 2^64 and would hide a date that is off by a multiple of 2^64 ns
+	n := new(big.Int).Mul(big.NewInt(t.Unix()), big.NewInt(1000000000))
+	n.Add(n, big.NewInt(int64(t.Nanosecond())))
+	if n.Sign() < 0 {
+		return "d:-" + new(big.Int).Neg(n).Text(16)
 	}
-	return "d:" + strconv.FormatUint(uint64(n), 16)
+	return "d:" + n.Text(16)
 }
 func parseZ(s string) (int64, uint64) {
 	s = strings.TrimPrefix(s, "z:")
@@ -81,19 +85,19 @@ func guidOf(s string) (g [16]byte) {
 }
 
 var sliceRead = map[string]func([]byte) string{
-	"ReadGUIDBytes":    func(b []byte) string { g := iohelp.ReadGUIDBytes(b); return "ok x:" + tohex(g[:]) },
-	"ReadBoolBytes":    func(b []byte) string { return "ok " + bs(iohelp.ReadBoolBytes(b)) },
-	"ReadByteBytes":    func(b []byte) string { return "ok " + us(uint64(iohelp.ReadByteBytes(b))) },
-	"ReadUint8Bytes":   func(b []byte) string { return "ok " + us(uint64(iohelp.ReadUint8Bytes(b))) },
-	"ReadUint16Bytes":  func(b []byte) string { return "ok " + us(uint64(iohelp.ReadUint16Bytes(b))) },
-	"ReadInt16Bytes":   func(b []byte) string { return "ok " + zs(int64(iohelp.ReadInt16Bytes(b))) },
-	"ReadUint32Bytes":  func(b []byte) string { return "ok " + us(uint64(iohelp.ReadUint32Bytes(b))) },
-	"ReadInt32Bytes":   func(b []byte) string { return "ok " + zs(int64(iohelp.ReadInt32Bytes(b))) },
-	"ReadUint64Bytes":  func(b []byte) string { return "ok " + us(iohelp.ReadUint64Bytes(b)) },
-	"ReadInt64Bytes":   func(b []byte) string { return "ok " + zs(iohelp.ReadInt64Bytes(b)) },
-	"ReadFloat32Bytes": func(b []byte) string { return "ok " + us(uint64(math.Float32bits(iohelp.ReadFloat32Bytes(b)))) },
-	"ReadFloat64Bytes": func(b []byte) string { return "ok " + us(math.Float64bits(iohelp.ReadFloat64Bytes(b))) },
-	"ReadDateBytes":    func(b []byte) string { return "ok " + ds(iohelp.ReadDateBytes(b)) },
+	"ReadGUIDBytes":       func(b []byte) string { g := iohelp.ReadGUIDBytes(b); return "ok x:" + tohex(g[:]) },
+	"ReadBoolBytes":       func(b []byte) string { return "ok " + bs(iohelp.ReadBoolBytes(b)) },
+	"ReadByteBytes":       func(b []byte) string { return "ok " + us(uint64(iohelp.ReadByteBytes(b))) },
+	"ReadUint8Bytes":      func(b []byte) string { return "ok " + us(uint64(iohelp.ReadUint8Bytes(b))) },
+	"ReadUint16Bytes":     func(b []byte) string { return "ok " + us(uint64(iohelp.ReadUint16Bytes(b))) },
+	"ReadInt16Bytes":      func(b []byte) string { return "ok " + zs(int64(iohelp.ReadInt16Bytes(b))) },
+	"ReadUint32Bytes":     func(b []byte) string { return "ok " + us(uint64(iohelp.ReadUint32Bytes(b))) },
+	"ReadInt32Bytes":      func(b []byte) string { return "ok " + zs(int64(iohelp.ReadInt32Bytes(b))) },
+	"ReadUint64Bytes":     func(b []byte) string { return "ok " + us(iohelp.ReadUint64Bytes(b)) },
+	"ReadInt64Bytes":      func(b []byte) string { return "ok " + zs(iohelp.ReadInt64Bytes(b)) },
+	"ReadFloat32Bytes":    func(b []byte) string { return "ok " + us(uint64(math.Float32bits(iohelp.ReadFloat32Bytes(b)))) },
+	"ReadFloat64Bytes":    func(b []byte) string { return "ok " + us(math.Float64bits(iohelp.ReadFloat64Bytes(b))) },
+	"ReadDateBytes":       func(b []byte) string { return "ok " + ds(iohelp.ReadDateBytes(b)) },
 	"MustReadStringBytes": func(b []byte) string { return "ok x:" + tohex([]byte(iohelp.MustReadStringBytes(b))) },
 	"MustReadStringBytesSharedMemory": func(b []byte) string {
 		return "ok x:" + tohex([]byte(iohelp.MustReadStringBytesSharedMemory(b)))
@@ -115,17 +119,20 @@ var sliceRead = map[string]func([]byte) string{
 }
 
 var sliceWrite = map[string]func([]byte, string){
-	"WriteGUIDBytes":    func(b []byte, v string) { iohelp.WriteGUIDBytes(b, guidOf(v)) },
-	"WriteInt64Bytes":   func(b []byte, v string) { i, _ := parseZ(v); iohelp.WriteInt64Bytes(b, i) },
-	"WriteUint64Bytes":  func(b []byte, v string) { _, u := parseZ(v); iohelp.WriteUint64Bytes(b, u) },
-	"WriteInt32Bytes":   func(b []byte, v string) { i, _ := parseZ(v); iohelp.WriteInt32Bytes(b, int32(i)) },
-	"WriteUint32Bytes":  func(b []byte, v string) { _, u := parseZ(v); iohelp.WriteUint32Bytes(b, uint32(u)) },
-	"WriteInt16Bytes":   func(b []byte, v string) { i, _ := parseZ(v); iohelp.WriteInt16Bytes(b, int16(i)) },
-	"WriteUint16Bytes":  func(b []byte, v string) { _, u := parseZ(v); iohelp.WriteUint16Bytes(b, uint16(u)) },
-	"WriteByteBytes":    func(b []byte, v string) { _, u := parseZ(v); iohelp.WriteByteBytes(b, byte(u)) },
-	"WriteUint8Bytes":   func(b []byte, v string) { _, u := parseZ(v); iohelp.WriteUint8Bytes(b, uint8(u)) },
-	"WriteBoolBytes":    func(b []byte, v string) { iohelp.WriteBoolBytes(b, v == "b:1") },
-	"WriteFloat32Bytes": func(b []byte, v string) { _, u := parseZ(v); iohelp.WriteFloat32Bytes(b, math.Float32frombits(uint32(u))) },
+	"WriteGUIDBytes":   func(b []byte, v string) { iohelp.WriteGUIDBytes(b, guidOf(v)) },
+	"WriteInt64Bytes":  func(b []byte, v string) { i, _ := parseZ(v); iohelp.WriteInt64Bytes(b, i) },
+	"WriteUint64Bytes": func(b []byte, v string) { _, u := parseZ(v); iohelp.WriteUint64Bytes(b, u) },
+	"WriteInt32Bytes":  func(b []byte, v string) { i, _ := parseZ(v); iohelp.WriteInt32Bytes(b, int32(i)) },
+	"WriteUint32Bytes": func(b []byte, v string) { _, u := parseZ(v); iohelp.WriteUint32Bytes(b, uint32(u)) },
+	"WriteInt16Bytes":  func(b []byte, v string) { i, _ := parseZ(v); iohelp.WriteInt16Bytes(b, int16(i)) },
+	"WriteUint16Bytes": func(b []byte, v string) { _, u := parseZ(v); iohelp.WriteUint16Bytes(b, uint16(u)) },
+	"WriteByteBytes":   func(b []byte, v string) { _, u := parseZ(v); iohelp.WriteByteBytes(b, byte(u)) },
+	"WriteUint8Bytes":  func(b []byte, v string) { _, u := parseZ(v); iohelp.WriteUint8Bytes(b, uint8(u)) },
+	"WriteBoolBytes":   func(b []byte, v string) { iohelp.WriteBoolBytes(b, v == "b:1") },
+	"WriteFloat32Bytes": func(b []byte, v string) {
+		_, u := parseZ(v)
+		iohelp.WriteFloat32Bytes(b, math.Float32frombits(uint32(u)))
+	},
 	"WriteFloat64Bytes": func(b []byte, v string) { _, u := parseZ(v); iohelp.WriteFloat64Bytes(b, math.Float64frombits(u)) },
 }
 
@@ -147,18 +154,24 @@ var streamRead = map[string]func(*iohelp.ErrorReader) string{
 }
 
 var streamWrite = map[string]func(*iohelp.ErrorWriter, string){
-	"WriteGUID":    func(w *iohelp.ErrorWriter, v string) { iohelp.WriteGUID(w, guidOf(v)) },
-	"WriteByte":    func(w *iohelp.ErrorWriter, v string) { _, u := parseZ(v); iohelp.WriteByte(w, byte(u)) },
-	"WriteUint8":   func(w *iohelp.ErrorWriter, v string) { _, u := parseZ(v); iohelp.WriteUint8(w, uint8(u)) },
-	"WriteBool":    func(w *iohelp.ErrorWriter, v string) { iohelp.WriteBool(w, v == "b:1") },
-	"WriteInt64":   func(w *iohelp.ErrorWriter, v string) { i, _ := parseZ(v); iohelp.WriteInt64(w, i) },
-	"WriteUint64":  func(w *iohelp.ErrorWriter, v string) { _, u := parseZ(v); iohelp.WriteUint64(w, u) },
-	"WriteInt32":   func(w *iohelp.ErrorWriter, v string) { i, _ := parseZ(v); iohelp.WriteInt32(w, int32(i)) },
-	"WriteUint32":  func(w *iohelp.ErrorWriter, v string) { _, u := parseZ(v); iohelp.WriteUint32(w, uint32(u)) },
-	"WriteInt16":   func(w *iohelp.ErrorWriter, v string) { i, _ := parseZ(v); iohelp.WriteInt16(w, int16(i)) },
-	"WriteUint16":  func(w *iohelp.ErrorWriter, v string) { _, u := parseZ(v); iohelp.WriteUint16(w, uint16(u)) },
-	"WriteFloat32": func(w *iohelp.ErrorWriter, v string) { _, u := parseZ(v); iohelp.WriteFloat32(w, math.Float32frombits(uint32(u))) },
-	"WriteFloat64": func(w *iohelp.ErrorWriter, v string) { _, u := parseZ(v); iohelp.WriteFloat64(w, math.Float64frombits(u)) },
+	"WriteGUID":   func(w *iohelp.ErrorWriter, v string) { iohelp.WriteGUID(w, guidOf(v)) },
+	"WriteByte":   func(w *iohelp.ErrorWriter, v string) { _, u := parseZ(v); iohelp.WriteByte(w, byte(u)) },
+	"WriteUint8":  func(w *iohelp.ErrorWriter, v string) { _, u := parseZ(v); iohelp.WriteUint8(w, uint8(u)) },
+	"WriteBool":   func(w *iohelp.ErrorWriter, v string) { iohelp.WriteBool(w, v == "b:1") },
+	"WriteInt64":  func(w *iohelp.ErrorWriter, v string) { i, _ := parseZ(v); iohelp.WriteInt64(w, i) },
+	"WriteUint64": func(w *iohelp.ErrorWriter, v string) { _, u := parseZ(v); iohelp.WriteUint64(w, u) },
+	"WriteInt32":  func(w *iohelp.ErrorWriter, v string) { i, _ := parseZ(v); iohelp.WriteInt32(w, int32(i)) },
+	"WriteUint32": func(w *iohelp.ErrorWriter, v string) { _, u := parseZ(v); iohelp.WriteUint32(w, uint32(u)) },
+	"WriteInt16":  func(w *iohelp.ErrorWriter, v string) { i, _ := parseZ(v); iohelp.WriteInt16(w, int16(i)) },
+	"WriteUint16": func(w *iohelp.ErrorWriter, v string) { _, u := parseZ(v); iohelp.WriteUint16(w, uint16(u)) },
+	"WriteFloat32": func(w *iohelp.ErrorWriter, v string) {
+		_, u := parseZ(v)
+		iohelp.WriteFloat32(w, math.Float32frombits(uint32(u)))
+	},
+	"WriteFloat64": func(w *iohelp.ErrorWriter, v string) {
+		_, u := parseZ(v)
+		iohelp.WriteFloat64(w, math.Float64frombits(u))
+	},
 }
 
 // a reader that hands out its data in chunks of at most `chunk` bytes and then fails with io.EOF (or a custom error)
